@@ -11,6 +11,7 @@
 -/
 import Blackbird.Lemmas.Bisim
 import Blackbird.Lemmas.Longest
+import Blackbird.ParserCode
 import Gen.ATNCert
 import Gen.Artefacts
 import Gen.G4
@@ -129,5 +130,14 @@ theorem C14_candidate_is_automaton_longest (name : String) (re : Re) (skip : Boo
   · intro hnone k hks
     rw [hlang]
     exact h2 hnone k hks
+
+/-- **The rule code of the shipped parsers decides where, and how, the automaton does.** The control
+forms of blackbirdParser.py (state entered last, kind of `if` / `while` / alternative switch), read from the
+generated source on every run, are the same in blackbirdParser.cpp, and each sits on a decision state of the
+matching kind of the decoded parser ATN; every decision of the ATN has its control form. -/
+theorem C14_parser_control_matches_atn :
+    Gen.pyControlStates = Gen.cppControlStates ∧ Gen.pyControlKinds = Gen.cppControlKinds ∧
+    controlOK Gen.parserATN Gen.pyControlStates Gen.pyControlKinds = true := by
+  decide +kernel
 
 end Blackbird
